@@ -57,8 +57,8 @@ class Webhook:
     def notify_add(cls, webhook_id, local_only, methods, queue):
         """Register to notify for webhooks of given type to be sent to queue."""
         if webhook_id not in cls.notify:
-            cls.notify[webhook_id] = set()
             _LOGGER.debug("webhook.notify_add(%s) -> adding webhook listener", webhook_id)
+            # (the entry is made once the handler is registered: a refused registration leaves nothing behind)
             webhook.async_register(
                 cls.hass,
                 "pyscript",  # DOMAIN
@@ -69,6 +69,7 @@ class Webhook:
                 allowed_methods=methods,
             )
             cls.notify_remove[webhook_id] = lambda: webhook.async_unregister(cls.hass, webhook_id)
+            cls.notify[webhook_id] = set()
 
         cls.notify[webhook_id].add(queue)
 
